@@ -24,7 +24,7 @@ func init() {
 				"(remove) RecalculateStakesV2 deletes exactly the tail [100:] of the ordered list and nothing when there are fewer than 100; DeleteCandidate freezes every stake and pending update with its full Value until height+GetUnbondPeriod() and zeroes it; " +
 				"(kick) in recalculateStakes the incoming update is kicked only when the smallest stake is strictly greater than it (an equal incoming stake replaces), the loser of either kind is passed to stakeKick with its own Owner/Value/Coin, and stakeKick hands exactly those to the waitlist.",
 			Assumptions: stdAssumptions,
-			Rules:       []string{"C17.select", "C17.power", "C17.keep", "C17.remove", "C17.kick", "C17.dirty", "C17.flag"},
+			Rules:       []string{"C17.select", "C17.power", "C17.keep", "C17.remove", "C17.kick", "C17.dirty", "C17.flag", "C17.rank"},
 		},
 		Run: runC17,
 	})
@@ -44,6 +44,7 @@ func runC17(c *core.Ctx) {
 	checkKeep(c, c.Method(ct, "DeleteCandidate"))
 	checkRemove(c, c.Method(ct, "RecalculateStakesV2"), c.Method(ct, "DeleteCandidate"))
 	checkKick(c, c.Method(ct, "recalculateStakes"), c.Method(ct, "stakeKick"))
+	checkRankAfterRecalculation(c, "C17.rank", ct, c.Method(ct, "stakeKick"))
 }
 
 func checkSelect(c *core.Ctx, fn *ssa.Function) {
@@ -627,4 +628,71 @@ func checkChangeFlags(c *core.Ctx, rule string) {
 		}
 	}
 	c.Floor(rule, n, 1, "change flags raised by state-module mutators")
+}
+
+// checkRankAfterRecalculation — C17.rank. RecalculateStakesV2 first recalculates every candidate's
+// stakes (bip values, updates, kicks, totals) and then removes the candidates ranked beyond the
+// limit. The ranking used for the removal is taken AFTER the recalculation: a list ordered before
+// it ranks the candidates by the previous period's totals, so a candidate whose stake has just
+// grown past the limit is deleted (and its delegators unbonded) while a shrunken one stays.
+// Decided: in RecalculateStakesV2 (and its helpers) every call that yields an ordered candidate
+// list is dominated by the call that performs the recalculation (a function from which the
+// kick-to-waitlist step is reachable inside the package).
+func checkRankAfterRecalculation(c *core.Ctx, rule string, ct *types.Named, kick *ssa.Function) {
+	fn := c.Method(ct, "RecalculateStakesV2")
+	if fn == nil || kick == nil {
+		c.Unk(rule, "RecalculateStakesV2", token.NoPos, "RecalculateStakesV2 / stakeKick not found")
+		return
+	}
+	// functions of the package that reach the kick step
+	reaches := map[*ssa.Function]bool{kick: true}
+	for round := 0; round < 3; round++ {
+		for _, g := range c.SrcFuncs(core.PkgOf(fn)) {
+			if reaches[g] {
+				continue
+			}
+			for _, s := range core.Sites(g) {
+				if h := s.Common.StaticCallee(); h != nil && reaches[h] {
+					reaches[g] = true
+				}
+			}
+		}
+	}
+	var recalc []*core.Site
+	var orders []*core.Site
+	for _, s := range core.Sites(fn) {
+		h := s.Common.StaticCallee()
+		if h == nil {
+			continue
+		}
+		if reaches[h] {
+			recalc = append(recalc, s)
+			continue
+		}
+		// yields a list of candidates in stake order: a []*Candidate result of a function that sorts
+		if h.Signature.Results().Len() == 1 && strings.HasSuffix(h.Signature.Results().At(0).Type().String(), "[]*"+ct.Obj().Pkg().Path()+".Candidate") {
+			sorts := false
+			for _, hs := range c.GroupSites(h) {
+				if strings.HasPrefix(hs.Callee, "sort.") {
+					sorts = true
+				}
+			}
+			if sorts {
+				orders = append(orders, s)
+			}
+		}
+	}
+	if len(recalc) == 0 || len(orders) == 0 {
+		c.Unk(rule, "RecalculateStakesV2/shape", fn.Pos(), fmt.Sprintf("%d recalculation calls, %d ordering calls", len(recalc), len(orders)))
+		return
+	}
+	for i, o := range orders {
+		ok := false
+		for _, r := range recalc {
+			if core.Dominates(r.Instr, o.Instr) {
+				ok = true
+			}
+		}
+		c.Check(ok, rule, fmt.Sprintf("RecalculateStakesV2/ordering#%d", i+1), o.Pos(), "the ranking is taken after the recalculation", "the candidates are ranked before their stakes are recalculated: the removal of the candidates beyond the limit goes by the previous period's totals")
+	}
 }
